@@ -351,6 +351,11 @@ class Verdict:
         """Returns (exit_code, n_new_violations)."""
         new = []
         hit = {}
+        try:    # full list of this run's violation keys (for triage; not an interface file)
+            with open(os.path.join(outdir(self.pid), "violation-keys.json"), "w") as f:
+                json.dump(sorted(set(k for k, _, _ in self.viol)), f, indent=0)
+        except OSError:
+            pass
         for key, desc, payload in self.viol:
             k = next((k for k in self.known if re.fullmatch(k["match"], key)), None)
             if k is not None:
